@@ -276,7 +276,8 @@ def policy(col, seed, n):
 def replay(col, case):
     from harness.core import dec
     case = dec(case)
-    c = case.get("case", case)
+    inner = case.get("case")
+    c = inner if isinstance(inner, dict) and "check" in inner else case
     kind = c["check"]
     if kind in ("native",) or (kind == "gen" and c["impl"].startswith("lib")):
         ffi, lib = _native()
